@@ -1,0 +1,84 @@
+//! Verification hooks, compiled only with `--cfg priority_queue_verif`.
+//!
+//! Read-only access to the raw tables of both queue kinds and a constructor
+//! that assembles a queue from raw tables without any validation. Nothing in
+//! here is part of the public API of the crate.
+
+#[cfg(not(feature = "std"))]
+use std::vec::Vec;
+
+use crate::store::{Index, Position, Store};
+use crate::{DoublePriorityQueue, PriorityQueue};
+use indexmap::IndexMap;
+
+fn cast_vec<T>(v: Vec<usize>) -> Vec<T> {
+    assert!(core::mem::size_of::<T>() == core::mem::size_of::<usize>());
+    assert!(core::mem::align_of::<T>() == core::mem::align_of::<usize>());
+    let mut v = core::mem::ManuallyDrop::new(v);
+    // `T` is `Index` or `Position`, both newtypes around `usize`
+    unsafe { Vec::from_raw_parts(v.as_mut_ptr() as *mut T, v.len(), v.capacity()) }
+}
+
+impl<I, P, H> Store<I, P, H> {
+    fn verif_from_raw(map: IndexMap<I, P, H>, heap: Vec<usize>, qp: Vec<usize>, size: usize) -> Self {
+        Store {
+            map,
+            heap: cast_vec::<Index>(heap),
+            qp: cast_vec::<Position>(qp),
+            size,
+        }
+    }
+}
+
+macro_rules! verif_hooks {
+    ($q:ident) => {
+        impl<I, P, H> $q<I, P, H> {
+            /// Assemble a queue from raw tables. No validation is performed.
+            pub fn verif_from_raw(
+                map: IndexMap<I, P, H>,
+                heap: Vec<usize>,
+                qp: Vec<usize>,
+                size: usize,
+            ) -> Self {
+                $q {
+                    store: Store::verif_from_raw(map, heap, qp, size),
+                }
+            }
+            /// `heap.len()`
+            pub fn verif_heap_len(&self) -> usize {
+                self.store.heap.len()
+            }
+            /// `qp.len()`
+            pub fn verif_qp_len(&self) -> usize {
+                self.store.qp.len()
+            }
+            /// `map.len()`
+            pub fn verif_map_len(&self) -> usize {
+                self.store.map.len()
+            }
+            /// the `size` counter
+            pub fn verif_size(&self) -> usize {
+                self.store.size
+            }
+            /// heap position -> slot index
+            pub fn verif_heap(&self, pos: usize) -> Option<usize> {
+                self.store.heap.get(pos).map(|i| i.0)
+            }
+            /// slot index -> heap position
+            pub fn verif_qp(&self, slot: usize) -> Option<usize> {
+                self.store.qp.get(slot).map(|p| p.0)
+            }
+            /// the entry stored in slot `slot` of the map
+            pub fn verif_slot(&self, slot: usize) -> Option<(&I, &P)> {
+                self.store.map.get_index(slot)
+            }
+            /// the map itself, read-only
+            pub fn verif_map(&self) -> &IndexMap<I, P, H> {
+                &self.store.map
+            }
+        }
+    };
+}
+
+verif_hooks!(PriorityQueue);
+verif_hooks!(DoublePriorityQueue);
